@@ -85,6 +85,10 @@ def gen_run(rng):
             fail = rng.random() < (0.7 if ia == 0 else (max(pfail, 0.35) if ia < head else pfail / 3))
             if fail and rng.random() < 0.3:
                 burst = rng.randint(1, 3)       # nested sub-stepping
+        if fail and dyn and rng.random() < 0.4:
+            # the attempt converges, the behaviour asks for a smaller time step: rejected by execute only
+            atts.append((0, rng.choice([0.5, 0.25, 0.75]), rng.randint(1, 2)))
+            continue
         if fail:
             kind = rng.choice([1, 1, 2, 3, 4, 0])
             # an integration failure must happen before the attempt converges (iteration 2 without prediction, 1 with)
@@ -106,17 +110,41 @@ def gen_run(rng):
             "maxF": maxF}
 
 
+def directed_runs():
+    """a converged attempt rejected for its time step scaling factor (dynamic mode), at every position
+    including the first period, with each prediction policy, alone and followed by a real failure"""
+    out = []
+    for pp in (0, 1, 2):
+        for pos in range(0, 5):
+            for tail in ((), ((1, 0.5, 1),)):
+                for f in (0.5, 0.75):
+                    atts = [(0, 1.0, 1)] * pos + [(0, f, 2)] + list(tail) + [(0, 1.0, 2)] * 40
+                    times = [0.0, 1.0, 2.0, 4.0]
+                    line = "run 1 10 6 %d none 1 %s %s %s %s %d %s %d %s" % (
+                        pp, hx(-1.0), hx(-1.0), hx(-1.0), hx(-1.0), len(times), " ".join(map(hx, times)), len(atts),
+                        " ".join("%d %s %d" % (k, hx(x), a) for k, x, a in atts))
+                    out.append({"line": line, "dyn": True, "mSub": 10, "iterMax": 6, "ppolicy": pp, "acceleration": "none",
+                                "integration_points": 1, "times": times, "script": atts, "minTs": -1.0, "maxTs": -1.0,
+                                "minF": -1.0, "maxF": -1.0, "directed": "converged attempt rejected for its scaling factor "
+                                "at position %d" % pos})
+    return out
+
+
 def compare_run(ans, stat):
     """(verdict, compared?, list of differing (field, with-rejections, direct))"""
     if " A " not in ans:
-        return ans.split()[0] if ans else "missing", False, []
+        return ans.split()[0] if ans else "missing", False, [], 0, 0, [], "?", "?"
     head, rest = ans.split(" A ", 1)
     a, b = rest.split(" B ")
     hd = head.split()
     verdict = hd[0]
     info = dict(w.split("=") for w in hd[1:] if "=" in w)
     if verdict != "end" or info.get("direct") != "end" or info.get("exact") != "1":
-        return verdict + ("" if info.get("exact") == "1" else ":inexact"), False, []
+        # the control run (same script, inert physics) tells what the script alone leads to
+        ctl = info.get("ctl", "?/0").split("/")[0]
+        leaks = [x for x in info.get("leak", "-").split(",") if x and x != "-"]
+        return verdict + ("" if info.get("exact") == "1" else ":inexact"), False, [], int(info.get("rejected", 0)), \
+            int(info.get("accepted", 0)), leaks, ctl, info.get("direct")
     diffs = []
     fa, fb = a.split(), b.split()
     for x, y in zip(fa, fb):
@@ -126,7 +154,8 @@ def compare_run(ans, stat):
     if len(fa) != len(fb):
         diffs.append(("layout", str(len(fa)), str(len(fb))))
     leaks = [x for x in info.get("leak", "-").split(",") if x and x != "-"]
-    return verdict, True, diffs, int(info.get("rejected", 0)), int(info.get("accepted", 0)), leaks
+    return verdict, True, diffs, int(info.get("rejected", 0)), int(info.get("accepted", 0)), leaks, \
+        info.get("ctl", "?/0").split("/")[0], info.get("direct")
 
 
 def run(ck):
@@ -168,7 +197,7 @@ def run(ck):
     driver = ck.lean_exe("c50driver", "TfelVerif/C50/Driver.lean")
 
     # 4. (run first: it is also the failing-input search of the broken obligations)
-    runs = [gen_run(rng) for _ in range(600 if ck.quick else 12000)]
+    runs = directed_runs() + [gen_run(rng) for _ in range(600 if ck.quick else 12000)]
     pr = c48lib.run_harness(ck, harness, "".join(r["line"] + "\n" for r in runs))
     if pr.returncode != 0:
         ck.violation("harness-crash", "the implementation harness aborted (sanitizer or crash)",
@@ -182,32 +211,43 @@ def run(ck):
     failing = {}       # unexplained differences: smallest failing history
     leaked = {}        # field -> smallest history after which it holds a value of a rejected attempt
     runs_differing = 0
+    aborted = {}
     distinct = set()
     for r, a in zip(runs, rout):
         res = compare_run(a, stat)
         verdict = res[0]
         hist["run:" + verdict] = hist.get("run:" + verdict, 0) + 1
+        hist_key = {k: r[k] for k in ("dyn", "mSub", "iterMax", "ppolicy", "acceleration", "integration_points", "times",
+                                      "minTs", "maxTs", "minF", "maxF")}
+        if r.get("directed"):
+            hist_key["directed"] = r["directed"]
+        for n in res[5]:
+            # tag run: after `revert` the readable field n is not what it was when the rejected attempt started
+            old = leaked.get(n)
+            if old is None or res[3] + res[4] < old["attempts"]:
+                leaked[n] = {"field": n, "attempts": res[3] + res[4], "rejected": res[3], "accepted": res[4],
+                             "what": "at the beginning of the attempt that follows a rejected one, the field is not what it "
+                                     "was when the rejected attempt started (it holds a value written by or because of it)",
+                             "request": r["line"], "history": hist_key, "script_prefix": r["script"][:res[3] + res[4] + 1],
+                             "final_state_differences_with_the_run_of_the_accepted_steps": [
+                                 {"field": a_, "with_rejections": b_, "accepted_steps_only": c_} for a_, b_, c_ in res[2][:8]]}
         if not res[1]:
-            if verdict.startswith("err") or "!accepted-count" in verdict:
+            if verdict.startswith("err") or "!accepted-detection" in verdict:
                 ck.violation("run:harness", "run request failed unexpectedly: " + a[:200], {"request": r["line"]}, False)
+            elif verdict.split(":inexact")[0] != "end" and res[6] == "end" and res[7] == "end" and r["acceleration"] == "none":
+                # the script alone (control run) completes, the direct run of the accepted steps completes,
+                # the run with rejections aborts: something a rejected attempt left behind changed the course
+                old = aborted.get("abort")
+                if old is None or res[3] + res[4] < old["attempts"]:
+                    aborted["abort"] = {"verdict": verdict, "attempts": res[3] + res[4], "rejected": res[3], "accepted": res[4],
+                                        "request": r["line"], "history": hist_key, "script_prefix": r["script"][:res[3] + res[4] + 2],
+                                        "fields_not_restored": res[5]}
             continue
         compared += 1
         rejected_total += res[3]
         accepted_total += res[4]
         with_rejections += res[3] > 0
         distinct.add((r["dyn"], r["acceleration"], r["ppolicy"], min(res[3], 5), min(res[4], 8), r["integration_points"]))
-        hist_key = {k: r[k] for k in ("dyn", "mSub", "iterMax", "ppolicy", "acceleration", "integration_points", "times",
-                                      "minTs", "maxTs", "minF", "maxF")}
-        for n in res[5]:
-            # tag run: the readable field n still holds a value written by a rejected attempt after `revert`
-            old = leaked.get(n)
-            if old is None or res[3] + res[4] < old["attempts"]:
-                leaked[n] = {"field": n, "attempts": res[3] + res[4], "rejected": res[3], "accepted": res[4],
-                             "what": "at the beginning of the attempt that follows a rejected one, the field still holds the "
-                                     "value written by the rejected attempt", "request": r["line"], "history": hist_key,
-                             "script_prefix": r["script"][:res[3] + res[4]],
-                             "final_state_differences_with_the_run_of_the_accepted_steps": [
-                                 {"field": a_, "with_rejections": b_, "accepted_steps_only": c_} for a_, b_, c_ in res[2][:8]]}
         if res[2] and not res[5]:
             old = failing.get("diff")
             if old is None or res[3] + res[4] < old["attempts"]:
@@ -220,7 +260,7 @@ def run(ck):
             runs_differing += 1
 
     def search(_failure=None):
-        cands = list(leaked.values()) + list(failing.values())
+        cands = list(leaked.values()) + list(failing.values()) + list(aborted.values())
         if not cands:
             return None
         return sorted(cands, key=lambda x: x["attempts"])[0]
@@ -246,6 +286,12 @@ def run(ck):
         rep["fields"] = sorted(leaked)
         ck.violation("mtest/src/GenericSolver.cxx:execute:revert", "a rejected attempt leaves a trace in %d fields (%s ...): "
                      "the state is not reverted" % (len(leaked), ", ".join(sorted(leaked)[:6])), rep, True)
+    if "abort" in aborted:
+        rep = aborted["abort"]
+        ck.violation("mtest/src/GenericSolver.cxx:execute:abort-after-rejection", "the run with rejections aborts (%s) after %d "
+                     "rejected and %d accepted attempts although the script alone completes and the run of the accepted steps "
+                     "only completes: a rejected attempt left a trace (fields not restored: %s)"
+                     % (rep["verdict"], rep["rejected"], rep["accepted"], rep["fields_not_restored"] or "?"), rep, True)
     if "diff" in failing:
         rep = failing["diff"]
         ck.violation("mtest/src/GenericSolver.cxx:execute:final-state", "after a run with %d rejected attempts the final state "
@@ -304,7 +350,8 @@ def run(ck):
         "evaluations": len(reqs) + len(runs), "distinct_nontrivial": len(distinct) + sum(1 for _ in itertools.chain.from_iterable(
             itertools.product("sruf", repeat=L) for L in range(0, 5))),
         "rule": "rv requests = every sequence of at most 4 operations over {scribble, revert, update, deep copy} on 2-4 container shapes, plus seeded longer ones (distinct = the sequences; each exercises a different composition of the translated statements); run requests = seeded failure scripts (distinct = (mode, acceleration algorithm, prediction, #rejected bucket, #accepted bucket, #integration points) classes observed among the compared runs)",
-        "exhaustive": False, "disagreements": disagreements + runs_differing,
+        "exhaustive": False, "disagreements": disagreements + runs_differing + len(aborted),
+        "directed_runs_converged_attempt_rejected_for_its_scaling_factor": len(directed_runs()),
         "fields_found_holding_a_rejected_attempt_value": sorted(leaked),
         "traces_validated_against_impl": len(reqs),
         "runs_compared_with_direct_run": compared, "runs_with_at_least_one_rejection": with_rejections,
